@@ -791,6 +791,16 @@ func execConfusedQueries(d *xdb, r *hx.Rng, t1, t2 xtable) {
 			d.query(fmt.Sprintf("SELECT id FROM t1 WHERE id > 0 ORDER BY id DESC LIMIT %d OFFSET %d", lim, off), "judged", "confused-window")
 		}
 	}
+	// LIMIT and OFFSET at the ends of their 64-bit range (their sum does not fit), with and without
+	// WHERE, ORDER BY, GROUP BY
+	for _, big := range []string{"9223372036854775807", "4611686018427387904"} {
+		for _, small := range []string{"1", big} {
+			for _, body := range []string{"SELECT id FROM t1 WHERE id > 1", "SELECT id FROM t1 WHERE id > 1 ORDER BY id", "SELECT k, count(*) FROM t1 GROUP BY k"} {
+				d.query(body+" LIMIT "+big+" OFFSET "+small, "judged", "confused-window")
+				d.query(body+" LIMIT "+small+" OFFSET "+big, "judged", "confused-window")
+			}
+		}
+	}
 	for i := 0; i < 15; i++ {
 		// type-confused predicate: any column against any literal
 		c := t1.cols[r.Intn(len(t1.cols))]
